@@ -7,9 +7,9 @@
 //verif:pkg x509
 //verif:harness H_C14_walk
 //verif:stub crypto/x509.checkSignature -> rt.StubCheckSignature
-//verif:summary github.com/notaryproject/notation-core-go/x509.validateTimestampingLeafCertificate -> sumLeaf
-//verif:summary github.com/notaryproject/notation-core-go/x509.validateTimestampingCACertificate -> sumCA
-//verif:summary github.com/notaryproject/notation-core-go/x509.isIssuedBy -> sumIssuedBy
+//verif:summary github.com/notaryproject/notation-core-go/x509.validateTimestampingLeafCertificate -> sumLeaf14
+//verif:summary github.com/notaryproject/notation-core-go/x509.validateTimestampingCACertificate -> sumCA14
+//verif:summary github.com/notaryproject/notation-core-go/x509.isIssuedBy -> sumIssuedBy14
 package x509
 
 import (
@@ -18,51 +18,51 @@ import (
 	rt "github.com/notaryproject/notation-core-go/internal/zzverifrt"
 )
 
-var walkIdx = map[*x509.Certificate]int{}
-var ufMemo = map[string]bool{}
-var issuedMemo = map[string]int{}
+var walkIdx14 = map[*x509.Certificate]int{}
+var ufMemo14 = map[string]bool{}
+var issuedMemo14 = map[string]int{}
 
-func idxName(c *x509.Certificate) string {
-	i, ok := walkIdx[c]
+func idxName14(c *x509.Certificate) string {
+	i, ok := walkIdx14[c]
 	if !ok {
 		rt.Fail("summary called with a certificate that is not in the chain")
 	}
 	return string(rune('0' + i))
 }
 
-// uf: one uninterpreted verdict per key.
-func uf(key string) bool {
-	if v, ok := ufMemo[key]; ok {
+// uf: one uninterpreted verdict14 per key.
+func uf14(key string) bool {
+	if v, ok := ufMemo14[key]; ok {
 		return v
 	}
 	v := rt.Bool(key)
-	ufMemo[key] = v
+	ufMemo14[key] = v
 	return v
 }
 
-func verdict(ok bool, tag string) error {
+func verdict14(ok bool, tag string) error {
 	if ok {
 		return nil
 	}
 	return rt.NewEnvError(tag)
 }
 
-func sumLeaf(c *x509.Certificate) error { return verdict(uf("leafOK."+idxName(c)), "leaf") }
-func sumCA(c *x509.Certificate, k int) error {
-	return verdict(uf("caOK."+idxName(c)+"."+string(rune('a'+k+1))), "ca")
+func sumLeaf14(c *x509.Certificate) error { return verdict14(uf14("leafOK."+idxName14(c)), "leaf") }
+func sumCA14(c *x509.Certificate, k int) error {
+	return verdict14(uf14("caOK."+idxName14(c)+"."+string(rune('a'+k+1))), "ca")
 }
-// issued: 0 = (true, nil), 1 = (false, nil), 2 = (false, err); one verdict per ordered pair.
-func issued(s, p *x509.Certificate) int {
-	key := idxName(s) + idxName(p)
-	if v, ok := issuedMemo[key]; ok {
+// issued: 0 = (true, nil), 1 = (false, nil), 2 = (false, err); one verdict14 per ordered pair.
+func issued14(s, p *x509.Certificate) int {
+	key := idxName14(s) + idxName14(p)
+	if v, ok := issuedMemo14[key]; ok {
 		return v
 	}
 	v := rt.Choose("issued."+key, 3)
-	issuedMemo[key] = v
+	issuedMemo14[key] = v
 	return v
 }
-func sumIssuedBy(s, p *x509.Certificate) (bool, error) {
-	switch issued(s, p) {
+func sumIssuedBy14(s, p *x509.Certificate) (bool, error) {
+	switch issued14(s, p) {
 	case 0:
 		return true, nil
 	case 1:
@@ -76,7 +76,7 @@ func H_C14_walk() {
 	chain := make([]*x509.Certificate, n)
 	for i := range chain {
 		chain[i] = rt.Havoc[*x509.Certificate]("c" + string(rune('0'+i)))
-		walkIdx[chain[i]] = i
+		walkIdx14[chain[i]] = i
 	}
 	err := ValidateTimestampingCertChain(chain)
 
@@ -86,16 +86,16 @@ func H_C14_walk() {
 		c := chain[0]
 		selfSig := rt.SigValid(c.RawTBSCertificate, c.Signature, c.PublicKey)
 		want = rt.And(want, rt.And(selfSig, rt.BytesEq(c.RawSubject, c.RawIssuer)))
-		want = rt.And(want, uf("leafOK.0"))
+		want = rt.And(want, uf14("leafOK.0"))
 	} else {
-		want = rt.And(want, issued(chain[n-1], chain[n-1]) == 0)
+		want = rt.And(want, issued14(chain[n-1], chain[n-1]) == 0)
 		for i := 0; i < n-1; i++ {
-			want = rt.And(want, issued(chain[i], chain[i]) != 0)
-			want = rt.And(want, issued(chain[i], chain[i+1]) == 0)
+			want = rt.And(want, issued14(chain[i], chain[i]) != 0)
+			want = rt.And(want, issued14(chain[i], chain[i+1]) == 0)
 		}
-		want = rt.And(want, uf("leafOK.0"))
+		want = rt.And(want, uf14("leafOK.0"))
 		for i := 1; i < n; i++ {
-			want = rt.And(want, uf("caOK."+string(rune('0'+i))+"."+string(rune('a'+i))))
+			want = rt.And(want, uf14("caOK."+string(rune('0'+i))+"."+string(rune('a'+i))))
 		}
 	}
 	rt.Assert(rt.Iff(err == nil, want), "C14.walk.iff")
